@@ -116,16 +116,11 @@ class Fn:
                 out.append((t["drop"], "u"))
         return out
 
-    def feasible_edges(self, b, cleanup=False):
-        """edges() minus the ones drop-flag constant propagation proves infeasible (P11)."""
-        self._prune()
-        return [(d, l) for (d, l) in self.edges(b, cleanup) if (b, d, l) not in self._pruned]
-
-    def _prune(self):
+    # ---- drop flags (P11): path-sensitive over boolean locals that are only ever assigned constants
+    def _flag_setup(self):
         if self._pruned is not None:
             return
-        self._pruned = set()
-        # bool locals only ever assigned constants
+        self._pruned = True
         consts = {}
         bad = set()
         for bi, blk in enumerate(self.blocks):
@@ -141,73 +136,64 @@ class Fn:
             t = blk["term"]
             if t["k"] == "call" and "dest" in t and not t["dest"]["p"]:
                 bad.add(t["dest"]["l"])
-        # address-taken flags are not flags
         for blk in self.blocks:
             for s in blk["stmts"]:
                 if s["k"] == "assign" and s["rv"]["k"] in ("ref", "rawptr"):
                     bad.add(s["rv"]["place"]["l"])
-        flags = [l for l in consts if l not in bad and self.locals[l] == "bool" and l > self.arg_count]
-        if not flags:
-            return
-        n = len(self.blocks)
-        TOP = 2
-        # state at block entry: dict flag -> 0/1/TOP/None(unset)
-        state = [None] * n
-        state[0] = {f: None for f in flags}
-        work = [0]
+        # only flags that are actually switched on matter
+        switched = set()
+        for blk in self.blocks:
+            t = blk["term"]
+            if t["k"] == "switch" and t["discr"]["k"] in ("copy", "move") and not t["discr"]["p"]:
+                switched.add(t["discr"]["l"])
+        self._flags = sorted(l for l in consts if l not in bad and self.locals[l] == "bool"
+                             and l > self.arg_count and l in switched)
+        self._fidx = {f: i for i, f in enumerate(self._flags)}
+        # reachable (block, valuation) pairs from the entry, over all edges
+        init = tuple([None] * len(self._flags))
+        self._bstates = defaultdict(set)
+        self._feas = defaultdict(set)
+        work = [(0, init)]
+        self._bstates[0].add(init)
         while work:
-            b = work.pop()
-            st = dict(state[b])
+            b, st = work.pop()
+            for (d, lab, st2) in self._step(b, st, True):
+                self._feas[b].add((d, lab))
+                if st2 not in self._bstates[d]:
+                    self._bstates[d].add(st2)
+                    work.append((d, st2))
+
+    def _step(self, b, st, cleanup):
+        """Feasible (dst, label, state') from block b entered with flag valuation st."""
+        if self._flags:
+            cur = list(st)
             for s in self.blocks[b]["stmts"]:
                 l = s["lhs"]
-                if not l["p"] and l["l"] in st and s["k"] == "assign":
-                    st[l["l"]] = s["rv"]["op"]["v"]
-            t = self.blocks[b]["term"]
-            for (d, lab) in self.edges(b, cleanup=True):
-                feasible = True
-                if t["k"] == "switch" and t["discr"]["k"] in ("copy", "move") and not t["discr"]["p"] \
-                        and t["discr"]["l"] in st and st[t["discr"]["l"]] in (0, 1):
-                    val = st[t["discr"]["l"]]
-                    listed = [v for v, _ in t["targets"]]
-                    if lab[1] is None:
-                        feasible = val not in listed
-                    else:
-                        feasible = (lab[1] == val)
-                if not feasible:
-                    continue
-                if state[d] is None:
-                    state[d] = dict(st)
-                    work.append(d)
-                else:
-                    changed = False
-                    for f in flags:
-                        if state[d][f] != st[f] and state[d][f] != TOP:
-                            state[d][f] = TOP
-                            changed = True
-                    if changed:
-                        work.append(d)
-        for b in range(n):
-            if state[b] is None:
-                continue
-            t = self.blocks[b]["term"]
-            if t["k"] != "switch" or t["discr"]["k"] not in ("copy", "move") or t["discr"]["p"]:
-                continue
-            f = t["discr"]["l"]
-            if f not in state[b]:
-                continue
-            st = dict(state[b])
-            for s in self.blocks[b]["stmts"]:
-                l = s["lhs"]
-                if not l["p"] and l["l"] in st and s["k"] == "assign":
-                    st[l["l"]] = s["rv"]["op"]["v"]
-            val = st[f]
-            if val not in (0, 1):
-                continue
-            listed = [v for v, _ in t["targets"]]
-            for (d, lab) in self.edges(b):
+                if not l["p"] and l["l"] in self._fidx and s["k"] == "assign":
+                    cur[self._fidx[l["l"]]] = s["rv"]["op"]["v"]
+            st2 = tuple(cur)
+        else:
+            st2 = st
+        t = self.blocks[b]["term"]
+        out = []
+        val = None
+        if t["k"] == "switch" and t["discr"]["k"] in ("copy", "move") and not t["discr"]["p"] \
+                and t["discr"]["l"] in self._fidx:
+            val = st2[self._fidx[t["discr"]["l"]]]
+        listed = [v for v, _ in t["targets"]] if t["k"] == "switch" else []
+        for (d, lab) in self.edges(b, cleanup):
+            if val in (0, 1):
                 ok = (val not in listed) if lab[1] is None else (lab[1] == val)
                 if not ok:
-                    self._pruned.add((b, d, lab))
+                    continue
+            out.append((d, lab, st2))
+        return out
+
+    def feasible_edges(self, b, cleanup=False):
+        """edges() minus the ones no drop-flag valuation reachable from the entry makes feasible."""
+        self._flag_setup()
+        f = self._feas.get(b, ())
+        return [(d, l) for (d, l) in self.edges(b, cleanup) if (d, l) in f]
 
     def succs(self, b, cleanup=False):
         return [d for d, _ in self.feasible_edges(b, cleanup)]
@@ -220,23 +206,40 @@ class Fn:
         return pm
 
     def reach(self, starts, avoid_blocks=(), avoid_edges=(), cleanup=False):
-        """Blocks reachable from `starts` (inclusive) without entering avoid_blocks / crossing avoid_edges.
+        """Blocks reachable from `starts` (inclusive) without entering avoid_blocks / crossing avoid_edges,
+        following only paths that are feasible for the drop flags (each start is entered with every flag
+        valuation it can have on some path from the function entry).
         avoid_edges: set of (src, dst, label) or (src, dst)."""
+        self._flag_setup()
         avoid_blocks = set(avoid_blocks)
         avoid_edges = set(avoid_edges)
         seen = set()
-        work = [s for s in starts if s not in avoid_blocks]
-        while work:
-            b = work.pop()
-            if b in seen:
+        work = []
+        for s in starts:
+            if isinstance(s, tuple):
+                # an edge (src, dst[, label]): enter dst with the valuations src leaves it with
+                src, dst = s[0], s[1]
+                for st in self._bstates.get(src, ()):
+                    for d, lab, st2 in self._step(src, st, True):
+                        if d == dst and (len(s) < 3 or s[2] == lab) and d not in avoid_blocks:
+                            work.append((d, st2))
                 continue
-            seen.add(b)
-            for d, lab in self.feasible_edges(b, cleanup):
+            if s in avoid_blocks:
+                continue
+            for st in self._bstates.get(s, ()):
+                work.append((s, st))
+        while work:
+            node = work.pop()
+            if node in seen:
+                continue
+            seen.add(node)
+            b, st = node
+            for d, lab, st2 in self._step(b, st, cleanup):
                 if d in avoid_blocks or (b, d, lab) in avoid_edges or (b, d) in avoid_edges:
                     continue
-                if d not in seen:
-                    work.append(d)
-        return seen
+                if (d, st2) not in seen:
+                    work.append((d, st2))
+        return {b for b, _ in seen}
 
     def returns(self):
         return [b for b, blk in enumerate(self.blocks) if blk["term"]["k"] == "return"]
@@ -878,3 +881,172 @@ def has_origin(origins, kind=None, key=None, path_suffix=None, path=None):
 def origin_strs(origins, limit=8):
     xs = sorted({o.short() for o in origins})
     return xs[:limit] + (["..."] if len(xs) > limit else [])
+
+
+# --------------------------------------------------------------------------- condition edges (P3 helpers)
+
+def bool_cond_edges(fn, prov, origin_pred, want):
+    """Edges of boolean switches whose tested value has an origin accepted by origin_pred(o),
+    taken when that origin's value is `want`. Negations (`!x`) met on the way flip the polarity.
+    Values matched through helper predicates (crate-local fns) are followed by Prov."""
+    out = set()
+    for b, blk in enumerate(fn.blocks):
+        t = blk["term"]
+        if t["k"] != "switch" or t["discr_ty"] != "bool":
+            continue
+        d = t["discr"]
+        if d["k"] == "const":
+            continue
+        origins = prov.of_operand(fn, d)
+        matched = [o for o in origins if origin_pred(o)]
+        if not matched:
+            continue
+        parities = {sum(1 for v in o.via if v[0] == "unop" and v[1] == "Not") % 2 for o in matched}
+        if len(parities) != 1:
+            continue
+        # a conjunction `a && b` lowers to nested switches, each on one operand: fine.
+        neg = parities.pop() == 1
+        w = (not want) if neg else want
+        listed = [v for v, _ in t["targets"]]
+        for (dst, lab) in fn.edges(b):
+            v = lab[1]
+            if v is None:
+                truth = True if listed == [0] else (False if listed == [1] else None)
+            else:
+                truth = bool(v)
+            if truth is not None and truth == w:
+                out.add((b, dst, lab))
+    return out
+
+
+def discr_cond_edges(fn, prov, ty_rx, variants, place_pred=None):
+    """Edges of discriminant switches over a place whose type matches ty_rx, taken for `variants`."""
+    out = set()
+    rx = re.compile(ty_rx)
+    for b in range(len(fn.blocks)):
+        info = fn.switch_info(b)
+        if not info or info.get("kind") != "discr":
+            continue
+        if not rx.search(info["ty"]):
+            continue
+        if place_pred is not None and not place_pred(info["place"]):
+            continue
+        out |= set(fn.variant_edges(b, variants))
+    return out
+
+
+def sites_star(facts, fn, term_pred, depth=4):
+    """Blocks of fn whose call terminator satisfies term_pred, or calls a crate-local callee (or hands over a
+    closure constructed in fn) whose body transitively contains such a call (P1 starred form)."""
+    memo = {}
+
+    def contains(path, d):
+        if path in memo:
+            return memo[path]
+        memo[path] = False
+        g = facts.fns.get(path)
+        if g is None or d <= 0:
+            return False
+        res = False
+        for b in g.calls():
+            t = g.term(b)
+            if term_pred(g, t) or contains(t["callee"], d - 1):
+                res = True
+                break
+        if not res:
+            for blk in g.blocks:
+                for s in blk["stmts"]:
+                    if s["k"] == "assign" and s["rv"]["k"] == "agg" and "closure" in s["rv"] \
+                            and contains(s["rv"]["closure"], d - 1):
+                        res = True
+        memo[path] = res
+        return res
+
+    out = []
+    for b in fn.calls():
+        t = fn.term(b)
+        if term_pred(fn, t):
+            out.append(b)
+            continue
+        if contains(t["callee"], depth):
+            out.append(b)
+            continue
+        # closure arguments constructed here
+        for a in t["args"]:
+            if a["k"] in ("copy", "move") and not a["p"]:
+                sd = fn.single_def(a["l"])
+                if sd and sd[1] != "term" and sd[2]["k"] == "assign" and sd[2]["rv"]["k"] == "agg" \
+                        and "closure" in sd[2]["rv"] and contains(sd[2]["rv"]["closure"], depth):
+                    out.append(b)
+                    break
+    return out
+
+
+def callee_is(t, regex):
+    return bool(re.search(regex, t["callee"]) or re.search(regex, t.get("decl", "")))
+
+
+def root_local(fn, op, max_steps=12):
+    """Follow copies / moves / borrows / reborrows (no calls) from an operand or place to the local it denotes.
+    -> (local, fields) where fields are the named projections met on the way (outermost last)."""
+    l = op["l"]
+    flds = list(fields_of(op["p"]))
+    for _ in range(max_steps):
+        if 1 <= l <= fn.arg_count:
+            break
+        sd = fn.single_def(l)
+        if sd is None or sd[1] == "term" or sd[2]["k"] != "assign":
+            break
+        rv = sd[2]["rv"]
+        if rv["k"] == "use" and rv["op"]["k"] in ("copy", "move"):
+            src = rv["op"]
+        elif rv["k"] in ("ref", "rawptr"):
+            src = rv["place"]
+        elif rv["k"] == "agg" and rv.get("array") and len(rv["ops"]) == 1 and rv["ops"][0]["k"] in ("copy", "move"):
+            src = rv["ops"][0]
+        else:
+            break
+        flds = list(fields_of(src["p"])) + flds
+        l = src["l"]
+    return l, tuple(flds)
+
+
+def first_switches(fn, start, info_pred):
+    """Discriminant/bool switches accepted by info_pred(info) that are reached first from block `start`
+    (re-tests of the same value further down -- typically inserted by drop elaboration -- are not returned)."""
+    sw = set()
+    for b in range(len(fn.blocks)):
+        if fn.blocks[b]["cleanup"]:
+            continue
+        info = fn.switch_info(b)
+        if info and info_pred(info):
+            sw.add(b)
+    if start is None:
+        return []
+    first = set()
+    if start in sw:
+        return [start]
+    r = fn.reach([start], avoid_blocks=sw)
+    for b in r:
+        for d in fn.succs(b):
+            if d in sw:
+                first.add(d)
+    return sorted(first)
+
+
+def result_switches(fn, call_block, ty_part=None, proj=None):
+    """First switches on the discriminant of call_block's destination (optionally of a projection of it)."""
+    t = fn.term(call_block)
+    dest = t["dest"]["l"]
+
+    def pred(info):
+        if info.get("kind") != "discr" or info["place"]["l"] != dest:
+            return False
+        flds = [e for e in info["place"]["p"] if e != "*"]
+        if proj is None:
+            if flds:
+                return False
+        elif flds != list(proj):
+            return False
+        return ty_part is None or ty_part in info["ty"]
+    return first_switches(fn, t["target"], pred)
